@@ -16,20 +16,31 @@ import (
 
 // block executes basic block b coming from pred.
 func (x *exec) block(st *pstate, b *ssa.BasicBlock, pred *ssa.BasicBlock) {
+	x.blockFrom(st, b, pred, 0)
+}
+
+// blockFrom executes b starting at instruction index start (start > 0: resuming the caller after an
+// inlined call; block entry work - loop header, phis - was done when the block was entered).
+func (x *exec) blockFrom(st *pstate, b *ssa.BasicBlock, pred *ssa.BasicBlock, start int) {
 	if x.pathNo > x.maxPaths {
 		unsupp("more than %d paths", x.maxPaths)
 	}
-	// loop header?
-	if ord, isLoop := x.loopOrd[b]; isLoop {
-		if lc, active := st.active[b]; active {
-			x.closeLoop(st, b, pred, ord, lc)
-			return
+	if start == 0 {
+		// loop header?
+		if ord, isLoop := x.loopOrd[b]; isLoop {
+			if lc, active := st.active[b]; active {
+				x.closeLoop(st, b, pred, ord, lc)
+				return
+			}
+			x.enterLoop(st, b, pred, ord)
+		} else {
+			x.phis(st, b, pred)
 		}
-		x.enterLoop(st, b, pred, ord)
-	} else {
-		x.phis(st, b, pred)
 	}
 	for i, in := range b.Instrs {
+		if i < start {
+			continue
+		}
 		if _, ok := in.(*ssa.Phi); ok {
 			continue
 		}
@@ -57,6 +68,10 @@ func (x *exec) block(st *pstate, b *ssa.BasicBlock, pred *ssa.BasicBlock) {
 			x.block(st, b.Succs[0], b)
 			return
 		case *ssa.Return:
+			if len(st.frames) > 0 {
+				x.inlineReturn(st, in)
+				return
+			}
 			x.doReturn(st, in)
 			x.pathNo++
 			return
